@@ -90,10 +90,18 @@ def renameAlias (ms : Members) : Members := ms.map (fun m => (if m.1 = kVerUrl t
 
 /-! ## Text level -/
 
-/-- the HTTP path (`endpoint_response`): one value from the front of the body, the rest is never looked at (F5) -/
-def decodeDevBody {P EF} (parse : Bytes → Option P) (decEF : Members → Option EF) (body : Bytes) : Option (DevResp P EF) :=
+/-- the HTTP path as on the PINNED tree (before fix 896fd71): one value from the front of the body, the rest was never
+looked at (F5) -/
+def decodeDevBodyPinned {P EF} (parse : Bytes → Option P) (decEF : Members → Option EF) (body : Bytes) : Option (DevResp P EF) :=
   match parsePrefix body with
   | some (j, _) => decodeDev parse decEF j
+  | none => none
+
+/-- the HTTP path (`endpoint_response` → `deserialize_json`): the body must be ONE JSON document
+(`Deserializer::end`: only whitespace may follow the value) -/
+def decodeDevBody {P EF} (parse : Bytes → Option P) (decEF : Members → Option EF) (body : Bytes) : Option (DevResp P EF) :=
+  match parseDocument body with
+  | some j => decodeDev parse decEF j
   | none => none
 
 /-- `serde_json::from_slice`: the whole text must be one document -/
